@@ -142,7 +142,8 @@ Init ==
   /\ sn = Sn0
 
 Note(e, f) ==
-  /\ tfailed' = IF Cardinality(tfailed) < 30 THEN tfailed \cup {<<e.tid, e.id, c>> : c \in f} ELSE tfailed
+  \* at most 6 recorded occurrences per clause, so that a frequent failure cannot hide a rarer one (all are counted in tnfail)
+  /\ tfailed' = tfailed \cup {<<e.tid, e.id, c>> : c \in {c2 \in f : Cardinality({x \in tfailed : x[3] = c2}) < 6}}
   /\ tnfail' = tnfail + Cardinality(f)
 
 EvInit(e) ==
